@@ -1,4 +1,5 @@
 import PB.Model.Varint
+import PB.Model.Base64
 /-
 The abstract specification of C16: a plain byte queue (`Bytes`, front of the queue = head of the list)
 with the obvious operations. Short enough to read in a minute.
@@ -49,6 +50,12 @@ inductive Op where
   | getNextBlock | getNextBlockAsContainer
   | getNextN8 | getNextN16 | getNextN32 | getNextN64
   | holdsData | length
+  /- container/serialization.go: the JSON form (base64 in quotes, `PB.Base64.jsonEnc`); the argument of
+     `unmarshalJSON` is what the JSON decoder makes of the text (`none` = the decoder reports an error) -/
+  | marshalJSON | unmarshalJSON (decoded : Option Bytes)
+  /- `WriteAllTo` into a writer that accepts `budget` bytes in total and then fails (io.Writer contract:
+     a short write comes with an error) -/
+  | writeAllTo (budget : Nat)
   deriving Repr
 
 inductive Out where
@@ -105,10 +112,40 @@ def step (q : Q) : Op → Q × Out
   | .getNextN64 => outNum (getNextN unpack64 10 q)
   | .holdsData => (q, .bool (decide (q.length > 0)))
   | .length => (q, .num q.length)
+  | .marshalJSON => (q, .bytes (PB.Base64.jsonEnc q))
+  | .unmarshalJSON (some raw) => (raw, .unit)
+  | .unmarshalJSON none => (q, .err "json")
+  | .writeAllTo budget => (q, .wts (q.take budget) (decide (q.length ≤ budget)))
 
 /-- Run a sequence of operations, collecting the observable results. -/
 def run (q : Q) : List Op → Q × List Out
   | [] => (q, [])
   | op :: ops => let r := step q op; let r' := run r.1 ops; (r'.1, r.2 :: r'.2)
+
+/-! ### Several queues at once: operations that take ANOTHER queue as their argument -/
+
+/-- Operations on a world of queues, addressed by index. -/
+inductive WOp where
+  | newc (ds : List Bytes)                 -- a further container, built from the given slices
+  | on (i : Nat) (op : Op)                 -- one single-container operation on container `i`
+  | appendFrom (i j : Nat)                 -- `c_i.AppendContainer(c_j)` — `c_j` in whatever state it is (j = i allowed)
+  | appendFromAsBlock (i j : Nat)          -- `c_i.AppendContainerAsBlock(c_j)`
+  deriving Repr
+
+def wstep (w : List Q) : WOp → List Q × Out
+  | .newc ds => (w ++ [ds.flatten], .unit)
+  | .on i op => match w[i]? with
+    | some q => let r := step q op; (w.set i r.1, r.2)
+    | none => (w, .err "noslot")
+  | .appendFrom i j => match w[i]?, w[j]? with
+    | some q, some p => (w.set i (q ++ p), .unit)
+    | _, _ => (w, .err "noslot")
+  | .appendFromAsBlock i j => match w[i]?, w[j]? with
+    | some q, some p => (w.set i (q ++ pack64 p.length ++ p), .unit)
+    | _, _ => (w, .err "noslot")
+
+def wrun (w : List Q) : List WOp → List Q × List Out
+  | [] => (w, [])
+  | op :: ops => let r := wstep w op; let r' := wrun r.1 ops; (r'.1, r.2 :: r'.2)
 
 end PB.ByteQueue
